@@ -8,7 +8,7 @@
    cited), the fractional-order series (_compute_log_a_for_frac_alpha: validated numerically only), float rounding (validated against
    kernel-checked interval enclosures by the check). *)
 From Coq Require Import ZArith Reals List Bool.
-From OV Require Import Base.Num Base.NumR Base.Py Gen.Rdp Proofs.RdpR Proofs.RdpToDp.
+From OV Require Import Base.Num Base.NumR Base.Py Gen.Rdp Proofs.RdpR Proofs.RdpToDp Proofs.RdpMoment.
 Local Open Scope R_scope.
 
 Theorem C06_log_add_correct (a b : R) : log_add_fin a b = ln (exp a + exp b).
@@ -38,9 +38,32 @@ Theorem C06_min_over_orders_sound (d : list (R * R)) (delta : R) (cands : list R
   In e cands -> (forall x, In x cands -> hs (exp x) d <= delta) -> hs (exp e) d <= delta.
 Proof. exact (min_over_orders_sound d delta cands e). Qed.
 
+(* where A_alpha comes from: for ANY expectation operator that is linear on finite sums and has the Gaussian moment generating function
+   E[exp(t z)] = exp(t^2 sigma^2 / 2), the alpha-th moment of the privacy-loss ratio (1-q) + q exp((2z-1)/(2 sigma^2)) of the Poisson-subsampled
+   Gaussian mechanism is exactly the series the code sums (the identification of this moment with the Renyi divergence is cited) *)
+Theorem C06_sgm_moment_expansion (sigma : R) (E : (R -> R) -> R) (q : R) (alpha : nat) : 0 < sigma ->
+  (forall f g, (forall z, f z = g z) -> E f = E g) ->
+  (forall (f : nat -> R -> R) n, E (fun z => sum_f_R0 (fun i => f i z) n) = sum_f_R0 (fun i => E (f i)) n) ->
+  (forall c f, E (fun z => c * f z) = c * E f) ->
+  (forall t, E (fun z => exp (t * z)) = exp (t * t * (sigma * sigma) / 2)) ->
+  E (fun z => ratio sigma q z ^ alpha) = A_int q sigma alpha.
+Proof. intros Hs H1 H2 H3 H4. exact (sgm_moment_expansion sigma Hs E H1 H2 H3 H4 q alpha). Qed.
+(* RDP adds under (non-adaptive) composition of mechanisms with finite output distributions, and the SUM converted with the code's
+   epsilon expression bounds the hockey-stick divergence of the composed mechanism -- what RDPAccountant does with its history *)
+Theorem C06_rdp_adds_under_composition (a rho1 rho2 : R) (d1 d2 : list (R * R)) : pos d1 -> pos d2 ->
+  mom a d1 <= exp ((a - 1) * rho1) -> mom a d2 <= exp ((a - 1) * rho2) -> mom a (dprod d1 d2) <= exp ((a - 1) * (rho1 + rho2)).
+Proof. exact (rdp_adds_under_composition a rho1 rho2 d1 d2). Qed.
+Theorem C06_composed_rdp_to_dp_sound (a rho1 rho2 delta : R) (d1 d2 : list (R * R)) : pos d1 -> pos d2 -> 1 < a -> 0 < delta ->
+  mom a d1 <= exp ((a - 1) * rho1) -> mom a d2 <= exp ((a - 1) * rho2) ->
+  hs (exp (eps_of_rdp (rho1 + rho2) a delta)) (dprod d1 d2) <= delta.
+Proof. exact (composed_rdp_to_dp_sound a rho1 rho2 delta d1 d2). Qed.
+
 Print Assumptions C06_log_add_correct.
 Print Assumptions C06_log_a_int_correct.
 Print Assumptions C06_moment_at_least_one.
 Print Assumptions C06_compute_rdp_cases.
 Print Assumptions C06_rdp_to_dp_sound.
 Print Assumptions C06_min_over_orders_sound.
+Print Assumptions C06_sgm_moment_expansion.
+Print Assumptions C06_rdp_adds_under_composition.
+Print Assumptions C06_composed_rdp_to_dp_sound.
